@@ -48,6 +48,7 @@ Post(e) ==
   /\ Chk("SinksView", (products' \ reactants') = ToSetOf(e.post.sinks))
   /\ Chk("Indices", idxs' = e.post.idxs)
   /\ Chk("AllowedList", allowed' = ToSetOf(e.post.allowed))
+  /\ Chk("RequiredList", required' = ToSetOf(e.post.required))
   /\ IF "ws" \in DOMAIN e.post                     \* queries asked of the real object in this state (harness/netrec.py, queries=True)
        THEN /\ \A n \in DOMAIN e.post.ws :
                  LET q == e.post.ws[n]
@@ -61,9 +62,12 @@ Post(e) ==
             /\ Chk("DupFirst", [k \in DOMAIN report'.first |-> rlist[report'.first[k]]] = e.first)
        ELSE TRUE
 
+(* a single edit the object REFUSED (the call raised: an unparsable name in a species list, a position that does not exist) leaves the
+   network exactly as it was; only reading a file may stop half-way with the lines before the bad one added *)
+Refusable == {"Add", "RemoveIdx", "RemoveIdxList", "RemoveInst", "RemoveInstList", "SetAllowed", "SetRequired", "Reindex"}
 TStep ==
   /\ l <= Len(Traces[tid].ev) /\ l' = l + 1 /\ UNCHANGED tid
-  /\ Step(Ev)
+  /\ IF Ev.err # "" /\ Ev.act \in Refusable THEN UNCHANGED nvars ELSE Step(Ev)
   /\ Post(Ev)
 
 TSpec == TInit /\ [][TStep]_<<nvars, tid, l>>
